@@ -63,6 +63,7 @@ type VC struct {
 	assumedStd    map[string]bool
 	pureUsed      map[string]bool
 	pureFns       map[*ssa.Function]bool
+	uncontracted  map[*ssa.Function]bool
 	pureHeapDep   map[*ssa.Function]bool
 	pureHeapIndep map[*ssa.Function]bool
 	heapReads     int
@@ -78,7 +79,7 @@ type VC struct {
 func newVC(p *Program, unit string) *VC {
 	vc := &VC{P: p, Unit: unit,
 		declSeen: map[string]bool{}, kindCtr: map[string]int{}, cmdDef: map[int]int{}, cmdAlt: map[int]string{},
-		abstracted: map[string]bool{}, assumedStd: map[string]bool{}, pureUsed: map[string]bool{}, pureFns: map[*ssa.Function]bool{}, pureHeapDep: map[*ssa.Function]bool{}, pureHeapIndep: map[*ssa.Function]bool{},
+		abstracted: map[string]bool{}, assumedStd: map[string]bool{}, pureUsed: map[string]bool{}, pureFns: map[*ssa.Function]bool{}, uncontracted: map[*ssa.Function]bool{}, pureHeapDep: map[*ssa.Function]bool{}, pureHeapIndep: map[*ssa.Function]bool{},
 		structName: map[string]string{}, heapNames: map[string]Sort{}}
 	vc.decl("Slice", "(declare-datatypes ((Slice 0)) (((mk_slice (s_arr Int) (s_off Int) (s_len Int) (s_cap Int)))))")
 	vc.decl("go_div", "(define-fun go_div ((a Int) (b Int)) Int (ite (>= a 0) (ite (> b 0) (div a b) (- (div a (- b)))) (ite (> b 0) (- (div (- a) b)) (div (- a) (- b)))))")
